@@ -27,24 +27,15 @@ def buildMatrix (A : Alphabet) (input : List (Nat × List Nat)) : Built Nat A.K 
   | (_, c0) :: _ => buildSymLoop ((Mat.empty : Mat Nat A.K).resize c0.length 0) [] input
 
 /-- `matrix`: `map_res(many1(matrix_column), build_matrix)` -/
-def matrix (A : Alphabet) : Parser (Except String (Mat Nat A.K)) := fun i =>
-  match many1 (matrixColumn A) i with
-  | .ok r cols =>
-    match buildMatrix A cols with
-    | .ok m => .ok r (.ok m)
-    | .invalid => .err
-    | .panic site => .ok r (.error site)
-  | .err => .err | .fail => .fail | .incomplete => .incomplete
+def matrix (A : Alphabet) : Parser (Except String (Mat Nat A.K)) :=
+  built (many1 (matrixColumn A)) (buildMatrix A)
 
 /-- `record`: the header of the raw flavour, then `map_res(matrix, CountMatrix::new)` -/
-def record (A : Alphabet) : Parser (Except String (CRecord A.K)) := fun i =>
-  match Jaspar.header i with
-  | .ok i1 (id, d) =>
-    match matrix A i1 with
-    | .ok i2 (.ok m) => .ok i2 (.ok { id := id, description := d, matrix := m })
-    | .ok i2 (.error site) => .ok i2 (.error site)
-    | .err => .err | .fail => .fail | .incomplete => .incomplete
-  | .err => .err | .fail => .fail | .incomplete => .incomplete
+def record (A : Alphabet) : Parser (Except String (CRecord A.K)) :=
+  pmap (pair Jaspar.header (matrix A)) fun v =>
+    match v.2 with
+    | .ok m => .ok { id := v.1.1, description := v.1.2, matrix := m }
+    | .error site => .error site
 
 /-! ### renderer -/
 
